@@ -149,6 +149,12 @@ type Check struct {
 	Exec func(r *Run) *Violation
 	// ShrinkBudget is the number of re-executions allowed while minimising.
 	ShrinkBudget int
+	// FreshProcess declares that a violation of this property may depend on
+	// state of the process (C30: what survives from earlier builds), so that
+	// re-executing draws in the worker that found it proves nothing: the
+	// violation is written unminimised, confirmed by the driver in a fresh
+	// process and minimised there by executing candidates in child processes.
+	FreshProcess bool
 	// Retries is the number of extra attempts made when re-executing
 	// recorded draws (0 for checks whose Exec is a pure function of the
 	// draws; C22 sets it because Go's map order inside native.Package is
@@ -320,6 +326,8 @@ func Main(t *testing.T, c Check) {
 		}
 	case "shrinkcrash":
 		shrinkCrash(c, w, out)
+	case "shrinkproc":
+		shrinkProc(c, w, out)
 	case "show":
 		// Print the materialised artefact and event log of a replay file
 		// (debugging aid; for crashing runs the artefact is printed before
@@ -429,6 +437,22 @@ func runRange(c Check, w *worker, out *outFile) {
 		}
 		draws := r.S.Draws()
 		orig := len(draws)
+		if c.FreshProcess {
+			file := ReplayFile{
+				Property: c.Prop, Tier: r.Tier, Seed: seed, BaseSeed: base, Index: i, Race: raceEnabled,
+				Draws: draws, Class: v.Class, Detail: v.Detail, LogHash: "",
+				Log: tail(r.log, 400), Artefact: firstNonNil(v.Artefact, r.Artefact), Shrunk: true, OrigLen: orig,
+			}
+			path := filepath.Join(replayDir, fmt.Sprintf("%s-%d.json", c.Prop, seed))
+			writeJSON(path, file)
+			out.json("VIOLATION", map[string]any{"index": i, "class": v.Class, "detail": v.Detail, "replay": path, "fresh_process": true})
+			out.line("END %d violation %s", i, r.LogHash())
+			nviol++
+			if nviol >= maxViol {
+				break
+			}
+			continue
+		}
 		// Known findings are matched on the original run first (no
 		// minimisation is spent on what is already listed).
 		matched := matchKnown(c, w, known, seed, i, draws, v)
@@ -707,6 +731,52 @@ func shrinkCrash(c Check, w *worker, out *outFile) {
 	path := filepath.Join(os.Getenv("VERIF_REPLAY_DIR"), fmt.Sprintf("%s-%d.json", c.Prop, seed))
 	writeJSON(path, file)
 	out.json("SHRINKCRASH", map[string]any{"reproduced": true, "replay": path, "detail": file.Detail})
+}
+
+// shrinkProc minimises the draws of a replay file by executing every
+// candidate in a child process (for violations that depend on process state).
+func shrinkProc(c Check, w *worker, out *outFile) {
+	path := os.Getenv("VERIF_REPLAY")
+	var rf ReplayFile
+	readJSON(path, &rf)
+	exe, err := os.Executable()
+	if err != nil {
+		Fail("executable: %v", err)
+	}
+	tmp, err := os.MkdirTemp(os.Getenv("VERIF_SCRATCH"), "shrinkproc")
+	if err != nil {
+		Fail("mkdtemp: %v", err)
+	}
+	defer os.RemoveAll(tmp)
+	violates := func(d []uint64) bool {
+		cand := rf
+		cand.Draws = d
+		cand.Shrunk = true
+		p := filepath.Join(tmp, "cand.json")
+		writeJSON(p, cand)
+		o := filepath.Join(tmp, "cand.out")
+		os.Remove(o)
+		cmd := exec.Command(exe, os.Args[1:]...)
+		cmd.Env = append(os.Environ(), "VERIF_MODE=exec1", "VERIF_REPLAY="+p, "VERIF_OUT="+o)
+		if err := cmd.Run(); err != nil {
+			return false
+		}
+		ob, _ := os.ReadFile(o)
+		return strings.Contains(string(ob), fmt.Sprintf("END %d violation %s", rf.Index, rf.Class))
+	}
+	if !violates(rf.Draws) {
+		out.json("SHRINKPROC", map[string]any{"reproduced": false})
+		return
+	}
+	budget := c.ShrinkBudget
+	if budget > 120 {
+		budget = 120
+	}
+	min := choice.Shrink(rf.Draws, budget, violates)
+	// Re-materialise the artefact and detail of the minimised run.
+	rf.Draws = min
+	writeJSON(path, rf)
+	out.json("SHRINKPROC", map[string]any{"reproduced": true, "draws": len(min)})
 }
 
 func firstLines(s string, n int) string {
